@@ -82,6 +82,9 @@ def gen_perm_twice(r, n):
     # the executable is busy (held open by a writer) when the call starts, and is given away while the call is under way
     for _ in range(max(2, n // 60)):
         ops.append(f"ex.busy how={r.pick(['chown', 'chmod'])} after_ms={r.range(10, 120)}")
+    # relative paths with a directory component (resolved against fan2go's working directory, for the check AND the start)
+    for path in ["bin/probe.sh", "./bin/probe.sh", "bin/../bin/probe.sh"]:
+        ops.append(f"ex.rel path={path}")
     ops.append("ex.count")
     return ops
 
@@ -158,6 +161,9 @@ def gen_exec(r, n):
     body.append(f"ex.userpair beh={r.pick(['sleep', 'execsleep'])} first={r.pick(['fanpwm', 'fanrpm', 'fanset'])} "
                 f"second={r.pick(['fanpwm', 'fanrpm', 'fanset', 'rpmavg'])} gap_ms={r.range(50, 400)}")
     body.append(f"ex.userpair beh={r.pick(['sleep', 'execsleep'])} first={r.pick(['fanpwm', 'fanrpm'])} second=rpmavg gap_ms={r.range(50, 400)}")
+    # a cmd fan is handed ANY int (restorePwmEnabled writes back what getPwm printed at start-up)
+    for v in [-1, 256, r.pick([1020, 65535, -300, 2**31])]:
+        body.append(f"ex.user kind=fanset beh=exit0 v={v}")
     while len(body) < n:
         k = r.below(10)
         if k < 5:
